@@ -12,7 +12,8 @@ EXTENDS Integers, Sequences, FiniteSets
 
 CONSTANT OpenKF
 
-S0 == [k |-> "none", q |-> <<>>]
+\* h: position of the node behind a handle the caller HOLDS across later edits (0 = none); see Out
+S0 == [k |-> "none", q |-> <<>>, h |-> 0]
 
 R(ok, v, s) == [ok |-> ok, v |-> v, s |-> s, p |-> FALSE]
 O(st, res)  == [st |-> st, res |-> res]
@@ -24,9 +25,12 @@ In(q, x)    == \E i \in 1..Len(q) : q[i] = x
 InsAt(q, i, v) == SubSeq(q, 1, i - 1) \o <<v>> \o SubSeq(q, i, Len(q))              \* v becomes q'[i]
 RemAt(q, i)    == SubSeq(q, 1, i - 1) \o SubSeq(q, i + 1, Len(q))
 
-Out(s, op) ==
-    CASE op.n = "news"    -> { O([k |-> "s", q |-> <<op.a[1]>>], Unit) }
-      [] op.n = "newd"    -> { O([k |-> "d", q |-> <<op.a[1]>>], Unit) }
+Base(s, op) ==
+    CASE op.n = "news"    -> { O([k |-> "s", q |-> <<op.a[1]>>, h |-> 0], Unit) }
+      [] op.n = "newd"    -> { O([k |-> "d", q |-> <<op.a[1]>>, h |-> 0], Unit) }
+      \* a list built by Init(a[1]) and Append of the rest
+      [] op.n = "newsn"   -> { O([k |-> "s", q |-> op.a, h |-> 0], Unit) }
+      [] op.n = "newdn"   -> { O([k |-> "d", q |-> op.a, h |-> 0], Unit) }
       [] op.n = "unshift" -> { O([s EXCEPT !.q = <<op.a[1]>> \o @], Unit) }
       [] op.n = "append"  -> { O([s EXCEPT !.q = Append(@, op.a[1])], Unit) }
       [] op.n = "shift"   -> IF Len(s.q) > 1 THEN { O([s EXCEPT !.q = Tail(@)], Unit) }
@@ -46,6 +50,28 @@ Out(s, op) ==
       [] op.n = "replace" -> IF In(s.q, op.a[1]) THEN { O([s EXCEPT !.q[Idx(s.q, op.a[1])] = op.a[2]], Unit) }
                              ELSE { O(s, Err) }
       [] OTHER -> {}
+
+(***************************************************************************)
+(* Handles held across edits ("Delete removes exactly that node" also when *)
+(* other nodes carry the same value by then).  hold x keeps the node Find  *)
+(* returns for x if it is not the first node; it stays valid across        *)
+(* Append, Unshift, InsertAfter and Replace - edits that neither remove    *)
+(* nor re-seat an existing node in any linked list - and is dropped by the *)
+(* driver before every other edit.  delheld deletes the held node.         *)
+(***************************************************************************)
+HAfter(s, op, o) ==
+    IF s.h = 0 THEN 0
+    ELSE CASE op.n \in {"append", "replace"} -> s.h
+           [] op.n = "unshift"  -> s.h + 1
+           [] op.n = "insafter" -> IF o.res.ok /\ Idx(s.q, op.a[1]) + 1 <= s.h THEN s.h + 1 ELSE s.h
+           [] OTHER -> 0
+
+Out(s, op) ==
+    CASE op.n = "hold" -> LET i == IF In(s.q, op.a[1]) THEN Idx(s.q, op.a[1]) ELSE 0 IN
+                          IF i >= 2 THEN { O([s EXCEPT !.h = i], Unit) } ELSE { O([s EXCEPT !.h = 0], Err) }
+      [] op.n = "delheld" -> IF s.h = 0 THEN { O(s, R(FALSE, 2, <<>>)) }
+                             ELSE { O([s EXCEPT !.q = RemAt(@, s.h), !.h = 0], Unit) }
+      [] OTHER -> { O([o.st EXCEPT !.h = HAfter(s, op, o)], o.res) : o \in Base(s, op) }
 
 \* observers: Each (twice, around the Finds: observing does not change the list), First/Last
 \* (DList only), Find of every probe value: fq the probes, ff found, fv the value in the node
